@@ -495,6 +495,9 @@ class Reader:
                 self.block(s.body, e2, lp.lid, guard)
                 if lp.var and isinstance(e2.get(lp.var), Poly):
                     lp.step = e2[lp.var] - Poly.atom('$' + lp.var)
+                    if lp.kind == 'cursor' and lp.stop is not None and lp.step.is_const() and lp.step.const_value() > 0:
+                        # a cursor advanced by a constant is a range loop:  while i < n: ...; i += k   ==   for i in range(start, n, k)
+                        lp.kind, lp.step = 'range', lp.step.const_value()
                 continue
             if isinstance(s, ast.If):
                 g = self.canon(s.test, env)
